@@ -3,6 +3,8 @@ import Cherab.Model.NotifyGraph
 import Cherab.Model.CherabDeps
 import Cherab.Model.Notifier
 import Cherab.Gen.NotifyEdges
+import Cherab.Model.Subscription
+import Cherab.Gen.SetterEvents
 open Cherab.Drv Cherab.NotifyGraph Cherab.CherabDeps Cherab.Gen.NotifyEdges
 
 /-- C01 driver.
@@ -10,6 +12,8 @@ open Cherab.Drv Cherab.NotifyGraph Cherab.CherabDeps Cherab.Gen.NotifyEdges
   uncovered                  (cache,param) pairs of the dependency table the graph does not cover
   notifier <ops…>            Notifier model: ops `a<obj>.<name>` add, `r<obj>.<name>` remove, `k<obj>` kill, `n` notify;
                              prints the callbacks invoked by each notify
+  subs <setter> <p1> <p2> …  Subscription model: the generated event list of that setter run over the assignment history;
+                             prints the providers whose notifier lists the callback afterwards (or `unknown-setter`)
 -/
 def parseEntry (s : String) : Nat × Nat :=
   match s.splitOn "." with
@@ -36,6 +40,10 @@ def step (ts : List String) : String :=
   | ["uncovered"] => " ".intercalate ((uncovered nodeNames edges fuel deps).map fun (c, p) => c ++ "<-" ++ p)
   | ["known", p] => fB ((idOf nodeNames p).isSome)
   | "notifier" :: ops => notifierRun ops
+  | "subs" :: name :: ps =>
+      match Cherab.Gen.setterEvents.find? (fun r => r.1 == name) with
+      | some r => " ".intercalate ((Cherab.Subscription.run r.2 Cherab.Subscription.init (ps.map String.toNat!)).subs.map toString)
+      | none => "unknown-setter"
   | _ => "bad-op"
 
 def main : IO UInt32 := do
